@@ -247,6 +247,35 @@ def one_case(ctx, progs, label="gen", script=None):
                 pass
             real.append("done"); fresh.append(fresh_pass)
 
+    # ---- a component added between two freezes is frozen by the second one (freeze reaches the components the
+    # model has *now*), and the answers of the re-frozen model are those of its current composition
+    for r in roots[:2]:
+        if not isinstance(r, Collection):
+            continue
+        try:
+            r.unfreeze()
+            import vlib
+            late = af.Model(vlib.P2)
+            r.late_component = late
+            r.freeze()
+            before = answer(r)
+            try:
+                late.a = 1.5
+                accepted = True
+            except AssertionError:
+                accepted = False
+            ctx.hit("late-component:" + ("accepted" if accepted else "rejected"))
+            if accepted:
+                ctx.fail("C13-frozen-accepts", "a component added after unfreeze() and frozen again with its parent accepts an assignment",
+                         {"programs": progs, "setup": setup, "ops": ops, "label": label, "late_component": True}, None)
+            elif answer(r) != fresh_answer(r) or before != answer(r):
+                ctx.fail("C13-stale-answer", "answers of a re-frozen model differ from an uncached rebuild (component added between two freezes)",
+                         {"programs": progs, "setup": setup, "ops": ops, "label": label, "late_component": True}, None)
+            r.unfreeze()
+            del r.late_component
+        except Exception as e:  # noqa
+            ctx.hit("late-component-probe-raised:" + type(e).__name__)
+
     # ---- model
     # prior passing reads the (cached) parameter order of the node: for the cache it is a query
     model_ops = [[("query" if o[0] == "pass" else o[0]), o[1]] for o in ops]
